@@ -71,6 +71,11 @@ RUN_STATE_POINTEES = {"m_extra", "rng_state"}
 
 def load_model_sets(ck):
     if not getattr(ck, "lean_ok", False):
+        # model not built (a theorem broke): fall back to the last known classification so that the oracle's
+        # messages stay meaningful; the broken build is reported separately
+        MODEL_DEAD.update({"s_pbase", "p_buffer_data_in_buffer", "m_xxo_info_start_row"})
+        MODEL_PARTIAL.update({"m_xxo_info_speed", "m_xxo_info_bpm", "m_xxo_info_gvl", "m_xxo_info_st26_speed",
+                              "m_seq_data_entry_point", "m_seq_data_duration"})
         return
     for l in vlib.run_driver("drv_c06", "sets\n"):
         f = l.split()
@@ -188,6 +193,61 @@ def run_shard(args):
     return rc, out.decode("latin-1"), err
 
 
+def judge_hist(ck, c, leaves, st, dead_seen, hist_states, played_seen, kind="hist"):
+    st["hist_cases"] += 1
+    lines = c["lines"]
+    if any(l.startswith("skip ") for l in lines):
+        st["load_failed"] += 1
+    fails = [l for l in lines if l.startswith("oracle_fail")]
+    diffs = [l.split() for l in lines if l.startswith(("diff_start ", "diff_end "))]
+    stat = [l.split() for l in lines if l.startswith("stat ")]
+    hs = [l.split() for l in lines if l.startswith("hist_state ")]
+    if hs:
+        hist_states[hs[0][1]] = hist_states.get(hs[0][1], 0) + 1
+    frames = int(stat[0][2]) if stat else 0
+    nonzero = int(stat[0][6]) if stat else 0
+    st["frames"] += frames
+    if nonzero > 0:
+        st["nonsilent_cases"] += 1
+    if any(l.startswith("prerun ") for l in lines):
+        st["restart_cases"] += 1
+    compared = any(l.startswith("image_start") for l in lines)
+    if compared:
+        st["hist_compared"] += 1
+        st["image_leaves_compared"] += 2 * len(leaves)
+    key = vlib.hashlib.sha256(replay_text_hist(c).encode()).hexdigest()[:16]
+    pre = [l.split() for l in lines if l.startswith("prerun ")]
+    played_before = (hs and int(hs[0][3]) > 0) or (pre and int(pre[0][2]) > 0)
+    ck.count(kind + ":" + key, nontrivial=bool(compared and frames > 0 and played_before))
+    ck.sample({"case": c["head"], "history_ops": sum(1 for l in lines if l.startswith("H ")),
+               "frames": frames, "dead_members_differing": sorted({d[1] for d in diffs})}, limit=4)
+    unexpected = [d for d in diffs if d[1] not in MODEL_DEAD and d[1] not in MODEL_PARTIAL]
+    played = [l.split() for l in lines if l.startswith("diff_played ")]
+    for d in played:
+        played_seen[d[1]] = played_seen.get(d[1], 0) + 1
+    unexpected += [d for d in played if d[1] in MODEL_B and d[1] not in RUN_STATE_POINTEES]
+    for d in diffs:
+        dead_seen[d[1]] = dead_seen.get(d[1], 0) + 1
+    if fails:
+        field = path_of(unexpected[0][1], leaves) if unexpected else None
+        if field == "m.extra":
+            field = "far_module_extras"     # the only canonicalised module extras (FAR tempo / vibrato state)
+        sig = "reset:" + field if field else "oracle:" + fails[0].split()[1] + ":" + os.path.basename(c["head"].split()[3])
+        ck.violation(sig, {"how": "write `script` to a file and run: c06_reset --replay <file>", "harness": "c06_reset",
+                           "script": replay_text_hist(c), "oracle": fails[:4], "image_diffs": [" ".join(d) for d in diffs[:8]]},
+                     "a context with a prior history renders differently from a fresh one: %s%s" % (
+                         fails[0], (" ; member not reset: " + field) if field else ""))
+    elif unexpected:
+        d = unexpected[0]
+        ck.unproved("correspondence Reset.load/startPlayer reset set vs the real context image",
+                    "case %s: %s: member %s differs between the reused and the fresh context "
+                    "(index %s: fresh %s reused %s) but the model says it is %s; replay script:\n%s" % (
+                        c["head"], d[0], path_of(d[1], leaves), d[2], d[3], d[4],
+                        "not changed by playing (set B)" if d[0] == "diff_played" else "reset", replay_text_hist(c)))
+    elif compared:
+        ck.cov["traces_validated_against_impl"] += 1
+
+
 def check_reset(ck, exe, mods, fields, ncases, maxhist, nshards):
     leaves = fields["ctx"]
     shards = [(exe, [str(ck.seed * 104729 + i), str(ncases), str(maxhist)] + mods) for i in range(nshards)]
@@ -256,66 +316,51 @@ def check_reset(ck, exe, mods, fields, ncases, maxhist, nshards):
                             "case %s: member %s: %s" % (c["head"], path_of(bad[0], leaves), bad[1]))
             else:
                 ck.cov["traces_validated_against_impl"] += 1
-        # ---- history cases: whole image + oracle ----
         for c in cases:
-            if " hist " not in c["head"]:
-                continue
-            st["hist_cases"] += 1
-            lines = c["lines"]
-            if any(l.startswith("skip ") for l in lines):
-                st["load_failed"] += 1
-            fails = [l for l in lines if l.startswith("oracle_fail")]
-            diffs = [l.split() for l in lines if l.startswith(("diff_start ", "diff_end "))]
-            stat = [l.split() for l in lines if l.startswith("stat ")]
-            hs = [l.split() for l in lines if l.startswith("hist_state ")]
-            if hs:
-                hist_states[hs[0][1]] = hist_states.get(hs[0][1], 0) + 1
-            frames = int(stat[0][2]) if stat else 0
-            nonzero = int(stat[0][6]) if stat else 0
-            st["frames"] += frames
-            if nonzero > 0:
-                st["nonsilent_cases"] += 1
-            if any(l.startswith("prerun ") for l in lines):
-                st["restart_cases"] += 1
-            compared = any(l.startswith("image_start") for l in lines)
-            if compared:
-                st["hist_compared"] += 1
-                st["image_leaves_compared"] += 2 * len(leaves)
-            key = vlib.hashlib.sha256(replay_text_hist(c).encode()).hexdigest()[:16]
-            ck.count("hist:" + key, nontrivial=compared and frames > 0 and hs and int(hs[0][3]) > 0)
-            ck.sample({"case": c["head"], "history_ops": sum(1 for l in lines if l.startswith("H ")),
-                       "frames": frames, "dead_members_differing": sorted({d[1] for d in diffs})}, limit=4)
-            unexpected = [d for d in diffs if d[1] not in MODEL_DEAD and d[1] not in MODEL_PARTIAL]
-            played = [l.split() for l in lines if l.startswith("diff_played ")]
-            for d in played:
-                played_seen[d[1]] = played_seen.get(d[1], 0) + 1
-            unexpected += [d for d in played if d[1] in MODEL_B and d[1] not in RUN_STATE_POINTEES]
-            for d in diffs:
-                dead_seen[d[1]] = dead_seen.get(d[1], 0) + 1
-            if fails:
-                field = path_of(unexpected[0][1], leaves) if unexpected else None
-                if field == "m.extra":
-                    field = "far_module_extras"     # the only canonicalised module extras (FAR tempo / vibrato state)
-                sig = "reset:" + field if field else "oracle:" + fails[0].split()[1] + ":" + os.path.basename(c["head"].split()[3])
-                ck.violation(sig, {"how": "write `script` to a file and run: c06_reset --replay <file>", "harness": "c06_reset",
-                                   "script": replay_text_hist(c), "oracle": fails[:4], "image_diffs": [" ".join(d) for d in diffs[:8]]},
-                             "a context with a prior history renders differently from a fresh one: %s%s" % (
-                                 fails[0], (" ; member not reset: " + field) if field else ""))
-            elif unexpected:
-                d = unexpected[0]
-                ck.unproved("correspondence Reset.load/startPlayer reset set vs the real context image",
-                            "case %s: %s: member %s differs between the reused and the fresh context "
-                            "(index %s: fresh %s reused %s) but the model says it is %s; replay script:\n%s" % (
-                                c["head"], d[0], path_of(d[1], leaves), d[2], d[3], d[4],
-                                "not changed by playing (set B)" if d[0] == "diff_played" else "reset", replay_text_hist(c)))
-            elif compared:
-                ck.cov["traces_validated_against_impl"] += 1
+            if " hist " in c["head"]:
+                judge_hist(ck, c, leaves, st, dead_seen, hist_states, played_seen)
     for k, v in st.items():
         ck.note("reset_" + k, v)
     ck.note("reset_op_kinds", opkinds)
     ck.note("reset_unreset_members_seen_differing", dead_seen)
     ck.note("reset_history_end_states", hist_states)
     ck.note("reset_members_changed_by_playing", played_seen)
+
+
+def check_restart_sweep(ck, exe, mods, fields, configs):
+    """Systematic part of the reuse oracle: for EVERY module of the pool, a second player run on the same
+    loaded module (after playing k frames at another rate/format) must equal the first run of a fresh context:
+    whole image, members changed by playing, frame info and PCM."""
+    leaves = fields["ctx"]
+    jobs = []
+    for m in mods:
+        for (pr, k, rate, fmt) in configs:
+            jobs.append("case 0 hist %s rate %d fmt %d smix 0 mem 0 rng 12345\nPR %s\nR frames %d 0 0 0\nC frames 100 0 0 0\n" % (
+                m, rate, fmt, pr, k))
+
+    def one(text):
+        path = os.path.join(vlib.OUT, "c06-sweep-%s.txt" % vlib.hashlib.sha256(text.encode()).hexdigest()[:12])
+        open(path, "w").write(text)
+        rc, out, err = vlib.run_exe(exe, ["--replay", path], timeout=600)
+        try:
+            os.unlink(path)
+        except OSError:
+            pass
+        return text, rc, out.decode("latin-1"), err
+    st = {"hist_cases": 0, "hist_compared": 0, "load_failed": 0, "frames": 0, "image_leaves_compared": 0, "nonsilent_cases": 0,
+          "restart_cases": 0}
+    dead_seen, hist_states, played_seen = {}, {}, {}
+    for text, rc, out, err in vlib.pmap(one, jobs):
+        if rc != 0 and "REPLAY:" not in out:
+            sig = vlib.sanitizer_signature(err)
+            ck.violation("harness-abort:" + sig, {"harness": "c06_reset", "script": text, "stderr": err[-3000:]},
+                         "c06_reset aborted in the restart sweep (rc=%d): %s" % (rc, sig))
+            continue
+        for c in split_cases(out):
+            judge_hist(ck, c, leaves, st, dead_seen, hist_states, played_seen, kind="sweep")
+    for k, v in st.items():
+        ck.note("sweep_" + k, v)
+    ck.note("sweep_members_changed_by_playing", sorted(played_seen))
 
 
 def check_regressions(ck, exe):
@@ -419,6 +464,11 @@ def run(ck):
     ex_reset = build("c06_reset")
     ex_iso = build("c06_isolation")
     check_regressions(ck, ex_reset)
+    sweep_mods = mods + [f for f in openmpt_files() if f not in mods and os.path.getsize(f) < 300000]
+    ck.note("sweep_modules", len(sweep_mods))
+    check_restart_sweep(ck, ex_reset, sweep_mods, fields,
+                        [("22050 4 0", 150, 44100, 0)] if quick else
+                        [("22050 4 0", 150, 44100, 0), ("44100 0 1", 400, 44100, 0), ("48000 2 0", 60, 11025, 5)])
     check_reset(ck, ex_reset, mods, fields, 24 if quick else 260, 14 if quick else 24, 16)
     check_isolation(ck, ex_iso, mods, 5 if quick else 50, 260 if quick else 1000, 3, 16)
     if not quick:
